@@ -45,6 +45,7 @@ enum Beh {
     Short(usize),
     Half,
     Err(u8, u64), // kind code, id
+    Panic,        // the sink panics inside `write`
 }
 
 fn kind_of(code: u8) -> io::ErrorKind {
@@ -98,6 +99,8 @@ struct Probe {
     flushes: usize,
     first_fail: Option<String>,
     after_fail: usize,
+    /// `flush` returns an error (script token `F`); the engine is not expected to flush at all
+    flush_err: bool,
 }
 
 impl Probe {
@@ -117,6 +120,14 @@ impl io::Write for Probe {
         }
         let beh = self.script.get(idx).cloned().unwrap_or(Beh::All);
         match beh {
+            Beh::Panic => {
+                if self.first_fail.is_none() {
+                    self.first_fail = Some(format!("panic@{idx}"));
+                }
+                // logged like an error so that the digest of the call log has an entry for it
+                self.calls.push((buf.len(), Res::Err(2, 999983)));
+                panic!("inj-panic");
+            }
             Beh::Err(code, id) => {
                 self.calls.push((buf.len(), Res::Err(code, id)));
                 if code != 4 && self.first_fail.is_none() {
@@ -129,7 +140,7 @@ impl io::Write for Probe {
                     Beh::All => buf.len(),
                     Beh::Short(k) => k.min(buf.len()),
                     Beh::Half => (buf.len() + 1) / 2,
-                    Beh::Err(..) => unreachable!(),
+                    Beh::Err(..) | Beh::Panic => unreachable!(),
                 };
                 self.calls.push((buf.len(), Res::Ok(n)));
                 self.accepted.extend_from_slice(&buf[..n]);
@@ -142,6 +153,12 @@ impl io::Write for Probe {
     }
     fn flush(&mut self) -> io::Result<()> {
         self.flushes += 1;
+        if self.flush_err {
+            if self.first_fail.is_none() {
+                self.first_fail = Some(format!("flush@{}", self.calls.len()));
+            }
+            return Err(io::Error::new(io::ErrorKind::Other, "inj-424242"));
+        }
         Ok(())
     }
 }
@@ -165,6 +182,8 @@ fn digest(calls: &[(usize, Res)]) -> u64 {
 fn parse_beh(t: &str) -> Option<Beh> {
     if t == "A" {
         Some(Beh::All)
+    } else if t == "P" {
+        Some(Beh::Panic)
     } else if t == "H" {
         Some(Beh::Half)
     } else if let Some(k) = t.strip_prefix('S') {
@@ -177,8 +196,14 @@ fn parse_beh(t: &str) -> Option<Beh> {
     }
 }
 
+/// `F` as first token: `flush` fails (no `write` behaviour)
+fn flush_fails(s: &str) -> bool {
+    s == "F" || s.starts_with("F,")
+}
+
 fn parse_script(s: &str) -> Option<Vec<Beh>> {
     let mut out = vec![];
+    let s = if s == "F" { "-" } else { s.strip_prefix("F,").unwrap_or(s) };
     if s == "-" {
         return Some(out);
     }
@@ -211,7 +236,66 @@ impl Object for Obj {
     }
 }
 
-fn ctx() -> Value {
+/// writes `k` pieces and then fails by itself (no sink involved)
+#[derive(Debug)]
+struct ObjErr(usize);
+impl Object for ObjErr {
+    fn render(self: &Arc<Self>, f: &mut fmt::Formatter<'_>) -> fmt::Result {
+        for i in 0..self.0 {
+            write!(f, "<p{}>", i)?;
+        }
+        Err(fmt::Error)
+    }
+}
+
+/// Latin-1 and other multi-byte characters through `write_char`, bytes through `write_str`
+#[derive(Debug)]
+struct ObjChars;
+impl Object for ObjChars {
+    fn render(self: &Arc<Self>, f: &mut fmt::Formatter<'_>) -> fmt::Result {
+        use fmt::Write;
+        for c in ['a', '\u{80}', 'é', 'ÿ', '<', '\u{100}', '€', '𝄞', '\u{7f}'] {
+            f.write_char(c)?;
+        }
+        f.write_str("ß/")
+    }
+}
+
+#[derive(Debug)]
+struct ObjSeq;
+impl Object for ObjSeq {
+    fn repr(self: &Arc<Self>) -> minijinja::value::ObjectRepr {
+        minijinja::value::ObjectRepr::Seq
+    }
+    fn get_value(self: &Arc<Self>, key: &Value) -> Option<Value> {
+        match key.as_usize()? {
+            0 => Some(Value::from("s<0>")),
+            1 => Some(Value::from(1.5)),
+            2 => Some(Value::from_safe_string("<safe>".into())),
+            _ => None,
+        }
+    }
+    fn enumerate(self: &Arc<Self>) -> minijinja::value::Enumerator {
+        minijinja::value::Enumerator::Seq(3)
+    }
+}
+
+#[derive(Debug)]
+struct ObjMap;
+impl Object for ObjMap {
+    fn get_value(self: &Arc<Self>, key: &Value) -> Option<Value> {
+        match key.as_str()? {
+            "k<" => Some(Value::from("v&")),
+            "n" => Some(Value::from(-3)),
+            _ => None,
+        }
+    }
+    fn enumerate(self: &Arc<Self>) -> minijinja::value::Enumerator {
+        minijinja::value::Enumerator::Str(&["k<", "n"])
+    }
+}
+
+fn base_ctx() -> std::collections::BTreeMap<String, Value> {
     let big: Vec<String> = (0..40).map(|i| if i % 7 == 3 { format!("s{i}<&") } else { format!("s{i}") }).collect();
     let bigstr = "lorem <ipsum> & 'dolor' ".repeat(120);
     let tree = Value::from(minijinja::value::Serde(serde_json::json!([
@@ -219,20 +303,88 @@ fn ctx() -> Value {
         {"name": "e", "children": []}
     ])));
     let nested = Value::from(minijinja::value::Serde(serde_json::json!({"a": [1, "x<"], "b": {"c": true, "d": null}, "e": 1.5})));
-    context! {
-        name => "World",
-        items => vec![1, 2, 3],
-        empty => Vec::<i32>::new(),
-        html => "<b>Tom & \"Jerry\"</b>/'",
-        big => big,
-        bigstr => bigstr,
-        nested => nested,
-        n => 5,
-        small => "123",
-        uni => "žluťoučký 𝄞 kůň",
-        tree => tree,
-        flag => true,
-        obj => Value::from_object(Obj),
+    let mut m = std::collections::BTreeMap::new();
+    let mut put = |k: &str, v: Value| {
+        m.insert(k.to_string(), v);
+    };
+    put("name", Value::from("World"));
+    put("items", Value::from(vec![1, 2, 3]));
+    put("empty", Value::from(Vec::<i32>::new()));
+    put("html", Value::from("<b>Tom & \"Jerry\"</b>/'"));
+    put("big", Value::from(big));
+    put("bigstr", Value::from(bigstr));
+    put("nested", nested);
+    put("n", Value::from(5));
+    put("small", Value::from("123"));
+    put("uni", Value::from("žluťoučký 𝄞 kůň"));
+    put("tree", tree);
+    put("flag", Value::from(true));
+    put("obj", Value::from_object(Obj));
+    // value kinds
+    put("bytes_v", Value::from_bytes(b"by\xfftes<&".to_vec()));
+    put("i128_v", Value::from(i128::MIN));
+    put("u128_v", Value::from(u128::MAX));
+    put("i64min", Value::from(i64::MIN));
+    put("u64max", Value::from(u64::MAX));
+    put("nan", Value::from(f64::NAN));
+    put("inf", Value::from(f64::INFINITY));
+    put("ninf", Value::from(f64::NEG_INFINITY));
+    put("negf", Value::from(-0.5));
+    put("lazy", Value::make_iterable(|| (0..3).map(|i| format!("l<{i}>"))));
+    put("obj_e0", Value::from_object(ObjErr(0)));
+    put("obj_e1", Value::from_object(ObjErr(1)));
+    put("obj_e3", Value::from_object(ObjErr(3)));
+    put("obj_chars", Value::from_object(ObjChars));
+    put("obj_seq", Value::from_object(ObjSeq));
+    put("obj_map", Value::from_object(ObjMap));
+    put("safe_html", Value::from_safe_string("<i>safe & sound</i>".into()));
+    put("small_safe", Value::from_safe_string("<s>".into()));
+    put("neg_str", Value::from("-42"));
+    for (k, v) in [("e1", "<a"), ("e2", "a<"), ("e3", "<<"), ("e4", "&"), ("e5", "a&b/c'd\"e>f<"), ("e6", "é<€>𝄞"), ("e7", ""), ("e8", "/"), ("e9", "a long string without any character that needs escaping at all"), ("e10", "x'y'z")] {
+        put(k, Value::from(v));
+    }
+    // 200 kB in one piece when safe; about 500 pieces when escaped
+    let huge = "0123456789 abcdefghijklmnopqrstuvwxyz <&> ".repeat(100);
+    put("huge_safe", Value::from_safe_string("0123456789 abcdefghijklmnopqrstuvwxyz <&> ".repeat(4800)));
+    put("huge", Value::from(huge));
+    m
+}
+
+fn ctx() -> Value {
+    static BASE: std::sync::OnceLock<std::collections::BTreeMap<String, Value>> = std::sync::OnceLock::new();
+    let mut m = BASE.get_or_init(base_ctx).clone();
+    // a one-shot iterator is used up by the render that prints it
+    m.insert("oneshot".into(), Value::make_one_shot_iterator(vec!["o<1>".to_string(), "o2".to_string()].into_iter()));
+    Value::from(m)
+}
+
+/// environment configuration of a program
+#[derive(Clone, Default, Debug)]
+struct EnvCfg {
+    fuel: Option<u64>,
+    /// 0 lenient, 1 chainable, 2 semi-strict, 3 strict
+    undefined: u8,
+    /// templates come from a loader instead of `add_template_owned`
+    loader: bool,
+    debug_off: bool,
+    /// 0 by file name (default), 1 always html, 2 always none, 3 always json, 4 a custom mode
+    auto_escape: u8,
+    trim_blocks: bool,
+    keep_trailing_newline: bool,
+}
+
+impl EnvCfg {
+    fn tag(&self) -> String {
+        format!(
+            "fuel{}-undef{}-loader{}-debug{}-ae{}-trim{}-nl{}",
+            self.fuel.map(|_| 1).unwrap_or(0),
+            self.undefined,
+            self.loader as u8,
+            !self.debug_off as u8,
+            self.auto_escape,
+            self.trim_blocks as u8,
+            self.keep_trailing_newline as u8
+        )
     }
 }
 
@@ -244,6 +396,11 @@ struct Prog {
     fn_blocks: Vec<String>,
     /// structured family: wire form of the program as a `Prog` term, expected `flat=` verdict
     psyn: Option<(String, &'static str)>,
+    cfg: EnvCfg,
+}
+
+fn pc(pid: &str, main: &str, templates: &[(&str, &str)], cfg: EnvCfg) -> Prog {
+    Prog { cfg, ..p(pid, main, templates, &[], &[]) }
 }
 
 fn p(pid: &str, main: &str, templates: &[(&str, &str)], blocks: &[&str], fn_blocks: &[&str]) -> Prog {
@@ -254,6 +411,7 @@ fn p(pid: &str, main: &str, templates: &[(&str, &str)], blocks: &[&str], fn_bloc
         blocks: blocks.iter().map(|s| s.to_string()).collect(),
         fn_blocks: fn_blocks.iter().map(|s| s.to_string()).collect(),
         psyn: None,
+        cfg: EnvCfg::default(),
     }
 }
 
@@ -300,6 +458,35 @@ fn fixed_programs() -> Vec<Prog> {
         p("f24", "m.txt", &[("m.txt", "{% macro rec(k) %}{{ k }}{% if k > 0 %}{{ rec(k - 1) }}{% endif %}{% endmacro %}{{ rec(4) }}{% set ns = namespace(c=0) %}{% for i in items %}{% set ns.c = ns.c + i %}{% endfor %}{{ ns.c }}{{ items|map('string')|join('/') }}{{ range(3)|list }}")], &[], &[]),
         p("f25", "child.txt", &[("base.txt", base),
                                 ("child.txt", "{% extends \"base.txt\" %}{% block body %}x{{ undefined_fn() }}y{% endblock %}")], &["title"], &[]),
+        // strings with metacharacters at the borders of the pieces, safe strings, the integer-string fast path
+        p("f26", "e.html", &[("e.html", "{{ e1 }}|{{ e2 }}|{{ e3 }}|{{ e4 }}|{{ e5 }}|{{ e6 }}|{{ e7 }}|{{ e8 }}|{{ e9 }}|{{ e10 }}|{{ safe_html }}|{{ small_safe }}|{{ neg_str }}|{{ small }}")], &[], &[]),
+        p("f27", "e.txt", &[("e.txt", "{{ e1 }}|{{ e2 }}|{{ e3 }}|{{ e4 }}|{{ e5 }}|{{ e6 }}|{{ e7 }}|{{ e8 }}|{{ e9 }}|{{ e10 }}|{{ safe_html }}|{{ small_safe }}|{{ neg_str }}|{{ small }}")], &[], &[]),
+        // every kind of value: plain, html and json auto-escaping
+        p("f28", "v.txt", &[("v.txt", "{{ bytes_v }}|{{ i128_v }}|{{ u128_v }}|{{ i64min }}|{{ u64max }}|{{ nan }}|{{ inf }}|{{ ninf }}|{{ negf }}|{{ 255 }}|{{ 256 }}|{{ lazy }}|{{ oneshot }}|{{ obj_chars }}|{{ obj_seq }}|{{ obj_map }}|{{ obj }}|{{ none }}|{{ missing }}|{{ [bytes_v, nan, 'q\"', obj_map] }}|{{ {'a': [1, {'b': lazy}]} }}")], &[], &[]),
+        p("f29", "v.html", &[("v.html", "{{ bytes_v }}|{{ i128_v }}|{{ u128_v }}|{{ i64min }}|{{ u64max }}|{{ nan }}|{{ inf }}|{{ ninf }}|{{ negf }}|{{ 255 }}|{{ 256 }}|{{ lazy }}|{{ oneshot }}|{{ obj_chars }}|{{ obj_seq }}|{{ obj_map }}|{{ obj }}|{{ none }}|{{ missing }}|{{ [bytes_v, nan, 'q\"', obj_map] }}|{{ {'a': [1, {'b': lazy}]} }}")], &[], &[]),
+        p("f30", "v.json", &[("v.json", "{{ bytes_v }}|{{ i128_v }}|{{ nan }}|{{ lazy }}|{{ obj_seq }}|{{ obj_map }}|{{ e5 }}|{{ safe_html }}|{{ none }}|{{ [1, 'x<', {'k': e6}] }}")], &[], &[]),
+        // user formatting code that fails by itself after 0, 1, 3 pieces (plain and escaped)
+        p("f31", "o.txt", &[("o.txt", "a{{ obj_e0 }}b")], &[], &[]),
+        p("f32", "o.txt", &[("o.txt", "a{{ name }}{{ obj_e1 }}b")], &[], &[]),
+        p("f33", "o.txt", &[("o.txt", "{% set x %}cap{% endset %}{{ x }}{{ obj_e3 }}b")], &[], &[]),
+        p("f34", "o.html", &[("o.html", "a{{ obj_e3 }}b")], &[], &[]),
+        p("f35", "o.txt", &[("o.txt", "a{% include \"i.txt\" %}b"), ("i.txt", "i{{ obj_e1 }}j")], &[], &[]),
+        p("f36", "o.txt", &[("o.txt", "a{{ [1, obj_e1, 2] }}b")], &[], &[]),
+        // huge strings: one piece when safe, thousands of pieces when escaped
+        p("f37", "h.html", &[("h.html", "<{{ huge_safe }}>{{ huge }}.")], &[], &[]),
+        p("f38", "h.txt", &[("h.txt", "<{{ huge }}>{{ huge|safe }}{{ huge|upper|length }}.")], &[], &[]),
+        // errors after partial output that have nothing to do with the sink
+        pc("f39", "m.txt", &[("m.txt", "start{% for i in range(1000) %}[{{ i }}]{% endfor %}end")], EnvCfg { fuel: Some(120), ..Default::default() }),
+        pc("f40", "m.txt", &[("m.txt", "a{{ name }}{{ missing }}b")], EnvCfg { undefined: 3, ..Default::default() }),
+        pc("f41", "m.txt", &[("m.txt", "a{{ name }}{{ missing.x }}b{{ missing }}c")], EnvCfg { undefined: 1, ..Default::default() }),
+        pc("f42", "m.txt", &[("m.txt", "raw text{{ name }}tail")], EnvCfg { auto_escape: 4, ..Default::default() }),
+        pc("f43", "m.txt", &[("m.txt", "{{ html }}{% autoescape false %}{{ html }}{% endautoescape %}{{ nested }}")], EnvCfg { auto_escape: 3, ..Default::default() }),
+        // loader-backed templates, debug off, whitespace options
+        pc("f44", "child.txt", &[("base.txt", base),
+                                 ("child.txt", "{% extends \"base.txt\" %}{% block body %}[{{ super() }}]{% include \"inc.txt\" %}{% endblock %}"),
+                                 ("inc.txt", "<inc {{ name }}>\n")], EnvCfg { loader: true, debug_off: true, ..Default::default() }),
+        pc("f45", "m.html", &[("m.html", "  {% if flag %}\n  x {{ html }}\n  {% endif %}\nlast\n")], EnvCfg { trim_blocks: true, keep_trailing_newline: true, auto_escape: 1, ..Default::default() }),
+        pc("f46", "m.txt", &[("m.txt", "{% for i in range(3) %}{{ i }}{% include \"x.txt\" %}{% endfor %}"), ("x.txt", "({{ loop.index }})")], EnvCfg { fuel: Some(1_000_000), loader: true, ..Default::default() }),
     ]
 }
 
@@ -528,7 +715,22 @@ fn gen_program(seed: u64, index: u64) -> Prog {
         }
         templates.push((main.clone(), src));
     }
-    Prog { pid: format!("g{seed}_{index}"), templates, main, blocks, fn_blocks: vec![], psyn: None }
+    // environment configuration: its own random stream, half of the programs keep the default
+    let mut crng = Rng::new(seed.wrapping_mul(77003).wrapping_add(index) ^ 0xCF6);
+    let cfg = if crng.chance(1, 2) {
+        EnvCfg::default()
+    } else {
+        EnvCfg {
+            fuel: if crng.chance(1, 5) { Some(1_000_000) } else if crng.chance(1, 10) { Some(30 + crng.below(300)) } else { None },
+            undefined: *crng.pick(&[0u8, 0, 0, 1, 1, 2, 3]),
+            loader: crng.chance(1, 4),
+            debug_off: crng.chance(1, 4),
+            auto_escape: *crng.pick(&[0u8, 0, 0, 1, 2, 3, 4]),
+            trim_blocks: crng.chance(1, 5),
+            keep_trailing_newline: crng.chance(1, 5),
+        }
+    };
+    Prog { pid: format!("g{seed}_{index}"), templates, main, blocks, fn_blocks: vec![], psyn: None, cfg }
 }
 
 // ----- structured family: programs generated as terms of the model's `Prog` layer and unparsed
@@ -787,7 +989,7 @@ fn gen_structured(seed: u64, index: u64) -> Prog {
     // a macro renders into its own Output: its capture is not among the root's operations
     // (`any`: the call may not be reached, so both verdicts occur)
     let expect = if g.macros.is_empty() { "same" } else { "any" };
-    Prog { pid: format!("s{seed}_{index}"), templates, main: "main.txt".into(), blocks: vec![], fn_blocks: vec![], psyn: Some((w, expect)) }
+    Prog { pid: format!("s{seed}_{index}"), templates, main: "main.txt".into(), blocks: vec![], fn_blocks: vec![], psyn: Some((w, expect)), cfg: EnvCfg::default() }
 }
 
 // ------------------------------------------------------------------------------------------ running
@@ -831,12 +1033,38 @@ fn emit_block(state: &mut State, name: String) -> Result<String, Error> {
 
 fn make_env(prog: &Prog, formatter: bool) -> Result<Environment<'static>, Error> {
     let mut env = Environment::new();
-    for (name, src) in &prog.templates {
-        env.add_template_owned(name.clone(), src.clone())?;
-    }
+    let cfg = &prog.cfg;
+    // settings first: templates are compiled (syntax, whitespace, initial auto-escape) when added
     env.add_function("emit_block", emit_block);
     if formatter {
         env.set_formatter(|out, state, value| minijinja::escape_formatter(out, state, value));
+    }
+    env.set_fuel(cfg.fuel);
+    env.set_undefined_behavior(match cfg.undefined {
+        1 => minijinja::UndefinedBehavior::Chainable,
+        2 => minijinja::UndefinedBehavior::SemiStrict,
+        3 => minijinja::UndefinedBehavior::Strict,
+        _ => minijinja::UndefinedBehavior::Lenient,
+    });
+    if cfg.debug_off {
+        env.set_debug(false);
+    }
+    match cfg.auto_escape {
+        1 => env.set_auto_escape_callback(|_| minijinja::AutoEscape::Html),
+        2 => env.set_auto_escape_callback(|_| minijinja::AutoEscape::None),
+        3 => env.set_auto_escape_callback(|_| minijinja::AutoEscape::Json),
+        4 => env.set_auto_escape_callback(|_| minijinja::AutoEscape::Custom("verif")),
+        _ => {}
+    }
+    env.set_trim_blocks(cfg.trim_blocks);
+    env.set_keep_trailing_newline(cfg.keep_trailing_newline);
+    if cfg.loader {
+        let map: std::collections::BTreeMap<String, String> = prog.templates.iter().cloned().collect();
+        env.set_loader(move |name| Ok(map.get(name).cloned()));
+    } else {
+        for (name, src) in &prog.templates {
+            env.add_template_owned(name.clone(), src.clone())?;
+        }
     }
     Ok(env)
 }
@@ -899,7 +1127,7 @@ fn op_tokens(log: &[vh::Event]) -> Vec<String> {
                     None => "e-".to_string(),
                 });
             }
-            vh::Event::Emit { out, value, ptr } if *out == root => {
+            vh::Event::Emit { out, value, ptr, .. } if *out == root => {
                 let idx = if *ptr != 0 { captures.iter().rposition(|(p, v)| p == ptr && v == value) } else { None };
                 toks.push(match (idx, value) {
                     (Some(i), _) => format!("m:{i}"),
@@ -916,7 +1144,7 @@ fn op_tokens(log: &[vh::Event]) -> Vec<String> {
 }
 
 /// `Ok(n)`: `run` is `clean` cut at a failing write (or all of it); n = operations without the `m` marks
-fn log_prefix(clean: &[String], run: &[String]) -> Result<usize, usize> {
+fn log_prefix(clean: &[String], run: &[String], panicked: bool) -> Result<usize, usize> {
     // the `m` marks depend on buffer addresses; they are not operations
     let clean: Vec<&String> = clean.iter().filter(|t| !t.starts_with('m')).collect();
     let run: Vec<&String> = run.iter().filter(|t| !t.starts_with('m')).collect();
@@ -930,10 +1158,75 @@ fn log_prefix(clean: &[String], run: &[String]) -> Result<usize, usize> {
         }
     }
     let failed = run.last().map(|t| t.ends_with('!')).unwrap_or(false);
+    if panicked {
+        // the write during which the sink panicked never returned: it is not in the log, it is
+        // the next operation of the clean log and it goes to the base writer
+        return match clean.get(run.len()) {
+            Some(next) if !failed && (next.starts_with("ws:") || next.starts_with("cs:")) => Ok(run.len() + 1),
+            _ => Err(run.len()),
+        };
+    }
     if !failed && run.len() != clean.len() {
         return Err(run.len());
     }
     Ok(run.len())
+}
+
+/// (used on templates that consist of one `{{ s }}`: all writes of the root output belong to it)
+/// one line per `Emit` of the root output that ran to completion: the auto-escape mode, the
+/// value's representation, default (`d`) or custom (`c`) formatter, the value's `Display` text,
+/// its string content, and the pieces the engine wrote for it
+fn emit_lines(log: &[vh::Event]) -> Vec<String> {
+    let root = log.iter().find_map(|e| match e {
+        vh::Event::New { out, .. } => Some(*out),
+        _ => None,
+    });
+    let Some(root) = root else { return vec![] };
+    let mut lines = vec![];
+    let mut cur: Option<(String, Vec<String>, bool)> = None;
+    let hexo = |o: &Option<String>| match o {
+        Some(t) => format!("={}", hex(t.as_bytes())),
+        None => "-".to_string(),
+    };
+    let finish = |cur: &mut Option<(String, Vec<String>, bool)>, lines: &mut Vec<String>| {
+        if let Some((head, pieces, ok)) = cur.take() {
+            if ok {
+                lines.push(format!("{head}\t{}", if pieces.is_empty() { "-".to_string() } else { pieces.join(",") }));
+            }
+        }
+    };
+    for ev in log {
+        match ev {
+            vh::Event::Emit { out, value, auto_escape, repr, text, default_formatter, .. } if *out == root => {
+                finish(&mut cur, &mut lines);
+                let ae = match auto_escape {
+                    minijinja::AutoEscape::None => "none",
+                    minijinja::AutoEscape::Html => "html",
+                    minijinja::AutoEscape::Json => "json",
+                    _ => "custom",
+                };
+                cur = Some((format!("{ae} {repr} {} {} {}", if *default_formatter { "d" } else { "c" }, hexo(text), hexo(value)), vec![], true));
+            }
+            vh::Event::WriteStr { out, data, ok, .. } if *out == root => {
+                if let Some(c) = cur.as_mut() {
+                    c.1.push(format!("w:{}", hex(data.as_bytes())));
+                    c.2 &= *ok;
+                }
+            }
+            vh::Event::WriteChar { out, data, ok, .. } if *out == root => {
+                if let Some(c) = cur.as_mut() {
+                    c.1.push(format!("c:{}", hex(data.to_string().as_bytes())));
+                    c.2 &= *ok;
+                }
+            }
+            vh::Event::New { .. } => {}
+            // writes on other outputs (macros, filters) happen while the value is computed, not while it is emitted
+            vh::Event::WriteStr { .. } | vh::Event::WriteChar { .. } => {}
+            _ => finish(&mut cur, &mut lines),
+        }
+    }
+    finish(&mut cur, &mut lines);
+    lines
 }
 
 struct Obs {
@@ -945,8 +1238,9 @@ struct Obs {
 }
 
 /// run one API of one program against a scripted probe
-fn run_api(env: &Environment<'static>, prog: &Prog, api: &str, script: Vec<Beh>, keep_chunks: bool) -> Obs {
+fn run_api(env: &Environment<'static>, prog: &Prog, api: &str, script: Vec<Beh>, keep_chunks: bool, flush_err: bool) -> Obs {
     let mut probe = Probe::new(script, keep_chunks);
+    probe.flush_err = flush_err;
     let mut outer = "-".to_string();
     let result: Result<Result<(), Error>, String> = if api == "full" || api == "fmt" {
         guarded(|| {
@@ -984,8 +1278,8 @@ fn run_api(env: &Environment<'static>, prog: &Prog, api: &str, script: Vec<Beh>,
                 };
                 match inner {
                     Some((res, kind)) => {
-                        let ops = op_tokens(&FN_LOG.with(|l| std::mem::take(&mut *l.borrow_mut())));
-                        return Obs { probe, res, kind, outer, ops };
+                        let log = FN_LOG.with(|l| std::mem::take(&mut *l.borrow_mut()));
+                        return Obs { probe, res, kind, outer, ops: op_tokens(&log) };
                     }
                     None => Ok(o.map(|_| ())),
                 }
@@ -1004,7 +1298,7 @@ fn run_api(env: &Environment<'static>, prog: &Prog, api: &str, script: Vec<Beh>,
 }
 
 /// the string the plain render of the same API returns (None: it fails) and its operation log
-fn reference(env: &Environment<'static>, prog: &Prog, api: &str) -> (Option<String>, Vec<String>) {
+fn reference(env: &Environment<'static>, prog: &Prog, api: &str) -> (Option<String>, Vec<String>, bool) {
     let mut fn_mode = false;
     let r: Result<Result<String, Error>, String> = if api == "full" || api == "fmt" {
         guarded(|| {
@@ -1037,8 +1331,9 @@ fn reference(env: &Environment<'static>, prog: &Prog, api: &str) -> (Option<Stri
     let log = if fn_mode { FN_LOG.with(|l| std::mem::take(&mut *l.borrow_mut())) } else { vh::stop() };
     let ops = op_tokens(&log);
     match r {
-        Ok(Ok(s)) => (Some(s), ops),
-        _ => (None, ops),
+        Ok(Ok(s)) => (Some(s), ops, false),
+        Ok(Err(_)) => (None, ops, false),
+        Err(_) => (None, ops, !fn_mode),
     }
 }
 
@@ -1049,7 +1344,7 @@ fn string_apis(env: &Environment<'static>, prog: &Prog, api: &str, refstr: &Opti
     }
     let src = &prog.templates[0].1;
     // `render_str` names the template "<string>": no auto escaping, like a .txt template
-    let a = if prog.main.ends_with(".txt") { guarded(|| env.render_str(src, ctx())).ok().and_then(|r| r.ok()) } else { refstr.clone() };
+    let a = if prog.main.ends_with(".txt") || prog.cfg.auto_escape != 0 { guarded(|| env.render_str(src, ctx())).ok().and_then(|r| r.ok()) } else { refstr.clone() };
     let b = guarded(|| env.render_named_str(&prog.main, src, ctx())).ok().and_then(|r| r.ok());
     if &a == refstr && &b == refstr { "same" } else { "differ" }
 }
@@ -1062,7 +1357,7 @@ fn model_fields(o: &Obs, clean_ops: &[String]) -> String {
         sum_bytes(&o.probe.accepted),
         digest(&o.probe.calls),
         o.res,
-        match log_prefix(clean_ops, &o.ops) {
+        match log_prefix(clean_ops, &o.ops, o.probe.first_fail.as_deref().map(|f| f.starts_with("panic@")).unwrap_or(false)) {
             Ok(n) => n.to_string(),
             Err(i) => format!("MISMATCH@{i}"),
         }
@@ -1095,7 +1390,7 @@ fn script_prefix(k: usize) -> String {
     if k == 0 { String::new() } else { format!("A*{k},") }
 }
 
-fn scripts_for(w: usize, total: usize, rng: &mut Rng, tier: &str) -> Vec<String> {
+fn scripts_for(w: usize, total: usize, rng: &mut Rng, tier: &str, with_panic: bool) -> Vec<String> {
     let mut out = vec![];
     let cap = if tier == "thorough" { 160 } else { 48 };
     let mut positions: Vec<usize> = if w <= cap {
@@ -1120,6 +1415,14 @@ fn scripts_for(w: usize, total: usize, rng: &mut Rng, tier: &str) -> Vec<String>
         out.push(format!("{pre}S1"));
         out.push(format!("{pre}H"));
         out.push(format!("{pre}S0"));
+        if with_panic {
+            out.push(format!("{pre}P"));
+        }
+    }
+    // the engine does not flush: a sink that fails only in `flush` never fails
+    out.push("F".to_string());
+    if w > 1 {
+        out.push(format!("F,{}S1", script_prefix(w / 2)));
     }
     // a failure scheduled after the last call must not matter
     out.push(format!("{}Ebp.77", script_prefix(w)));
@@ -1165,7 +1468,7 @@ fn apis_of(prog: &Prog) -> Vec<String> {
     v
 }
 
-fn run_program(prog: &Prog, tier: &str, rng: &mut Rng, out: &mut impl io::Write) {
+fn run_program(prog: &Prog, tier: &str, rng: &mut Rng, out: &mut impl io::Write, emits: &mut std::collections::BTreeSet<String>) {
     for api in apis_of(prog) {
         let env = match make_env(prog, api == "fmt") {
             Ok(env) => env,
@@ -1174,9 +1477,16 @@ fn run_program(prog: &Prog, tier: &str, rng: &mut Rng, out: &mut impl io::Write)
                 return;
             }
         };
-        let clean = run_api(&env, prog, &api, vec![], true);
-        let (refstr, plain_ops) = reference(&env, prog, &api);
-        let clean_tag = if clean.res == "ok" { "ok" } else { "err" };
+        let clean = run_api(&env, prog, &api, vec![], true, false);
+        let _ = &emits;
+        let (refstr, plain_ops, plain_panic) = reference(&env, prog, &api);
+        // `wfnone`: user formatting code failed by itself (WriteFailure without an io::Error)
+        let clean_tag = match clean.res.as_str() {
+            "ok" => "ok",
+            "wfnone" => "wfnone",
+            "panic" => "panic",
+            _ => "err",
+        };
         // reference bytes: the plain render's string; if the plain render fails, what the clean run delivered
         let refbytes: Vec<u8> = match &refstr {
             Some(s) => s.as_bytes().to_vec(),
@@ -1184,7 +1494,7 @@ fn run_program(prog: &Prog, tier: &str, rng: &mut Rng, out: &mut impl io::Write)
         };
         let same = match &refstr {
             Some(s) => (clean.res == "ok" && s.as_bytes() == &clean.probe.accepted[..]) as u8,
-            None => (clean.res != "ok" && clean.res != "panic") as u8,
+            None => (clean.res != "ok" && (clean.res == "panic") == plain_panic) as u8,
         };
         let w = clean.probe.calls.len();
         // the sink calls of a clean run are exactly the non-empty writes routed to the base writer
@@ -1200,7 +1510,7 @@ fn run_program(prog: &Prog, tier: &str, rng: &mut Rng, out: &mut impl io::Write)
         let n_capemit = clean.ops.iter().filter(|t| t.starts_with("m:")).count();
         writeln!(
             out,
-            "prog\t{} {} {} {} {}\tw={} bytes={} sum={} route=ok:{}:{} same={} res={} plain={} plainops={} sinkcalls={} strapis={} flat={} capemit={}",
+            "prog\t{} {} {} {} {}\tw={} bytes={} sum={} route=ok:{}:{} same={} res={} plain={} plainops={} sinkcalls={} strapis={} flat={} capemit={} cfg={}",
             prog.pid,
             api,
             clean_tag,
@@ -1213,17 +1523,87 @@ fn run_program(prog: &Prog, tier: &str, rng: &mut Rng, out: &mut impl io::Write)
             n_ends,
             same,
             clean.res,
-            if refstr.is_some() { "ok" } else { "err" },
+            if refstr.is_some() { "ok" } else if plain_panic { "panic" } else { "err" },
             if plain_tokens(&plain_ops) == plain_tokens(&clean.ops) { "same" } else { "differ" },
             if base_chunks == clean.probe.chunks { "same" } else { "differ" },
             string_apis(&env, prog, &api, &refstr),
             prog.psyn.as_ref().map(|p| p.1).unwrap_or("na"),
             n_capemit,
+            prog.cfg.tag(),
         )
         .unwrap();
-        for script in scripts_for(w, clean.probe.accepted.len(), rng, tier) {
-            let o = run_api(&env, prog, &api, parse_script(&script).expect("script"), false);
+        // a panicking sink: not through the template function (its probe lives in a thread-local)
+        for script in scripts_for(w, clean.probe.accepted.len(), rng, tier, !api.starts_with("fn:")) {
+            let o = run_api(&env, prog, &api, parse_script(&script).expect("script"), false, flush_fails(&script));
             writeln!(out, "case\t{} {} {}\t{}\t{}", prog.pid, api, script, model_fields(&o, &clean.ops), oracle_fields(&o, &refbytes)).unwrap();
+        }
+    }
+}
+
+/// every string over a small alphabet (ordinary, escaped, multi-byte) up to length 5, printed under
+/// html, no and json auto-escaping: the pieces the engine writes for each (`emit` lines)
+fn run_strings(emits: &mut std::collections::BTreeSet<String>) {
+    let mut env = Environment::new();
+    for ext in ["html", "txt", "json"] {
+        env.add_template_owned(format!("x.{ext}"), "{{ s }}".to_string()).unwrap();
+    }
+    let alphabet = ['a', '<', '&', 'é', '\''];
+    let mut strings: Vec<String> = vec![String::new(), "/".into(), "\"".into(), ">".into(), "12".into(), "-7".into(), "a/b>c\"".into()];
+    let mut layer: Vec<String> = vec![String::new()];
+    for _ in 0..5 {
+        let mut next = vec![];
+        for s in &layer {
+            for c in alphabet {
+                let mut t = s.clone();
+                t.push(c);
+                next.push(t);
+            }
+        }
+        strings.extend(next.iter().cloned());
+        layer = next;
+    }
+    for s in &strings {
+        for ext in ["html", "txt", "json"] {
+            if ext == "json" && s.chars().count() > 3 {
+                continue;
+            }
+            for safe in [false, true] {
+                if safe && s.chars().count() > 2 {
+                    continue;
+                }
+                let v = if safe { Value::from_safe_string(s.clone()) } else { Value::from(s.clone()) };
+                let tmpl = env.get_template(&format!("x.{ext}")).unwrap();
+                vh::start();
+                let _ = tmpl.render(context! { s => v });
+                emits.extend(emit_lines(&vh::stop()));
+            }
+        }
+    }
+}
+
+/// every value of the context printed alone under no, html and json auto-escaping, with the default
+/// and with a custom formatter (`emit` lines)
+fn run_values(emits: &mut std::collections::BTreeSet<String>) {
+    let mut keys: Vec<String> = base_ctx().keys().cloned().collect();
+    keys.push("oneshot".into());
+    keys.push("missing".into());
+    for formatter in [false, true] {
+        let mut env = Environment::new();
+        if formatter {
+            env.set_formatter(|out, state, value| minijinja::escape_formatter(out, state, value));
+        }
+        for key in &keys {
+            for ext in ["html", "txt", "json"] {
+                if key.starts_with("huge") && ext == "json" {
+                    continue;
+                }
+                let name = format!("{key}.{ext}");
+                env.add_template_owned(name.clone(), format!("{{{{ {key} }}}}")).unwrap();
+                let tmpl = env.get_template(&name).unwrap();
+                vh::start();
+                let _ = guarded(|| tmpl.render(ctx()));
+                emits.extend(emit_lines(&vh::stop()));
+            }
         }
     }
 }
@@ -1308,20 +1688,26 @@ fn main() {
             let tier = args.get(2).map(|s| s.as_str()).unwrap_or("quick").to_string();
             let seed = seed_from_env();
             let mut rng = Rng::new(seed ^ 0xC19);
+            let mut emits = std::collections::BTreeSet::new();
             for prog in fixed_programs() {
-                run_program(&prog, &tier, &mut rng, &mut out);
+                run_program(&prog, &tier, &mut rng, &mut out, &mut emits);
             }
             let n = if tier == "thorough" { 1500 } else { 300 };
             for i in 0..n {
                 let prog = gen_program(seed, i);
-                run_program(&prog, &tier, &mut rng, &mut out);
+                run_program(&prog, &tier, &mut rng, &mut out, &mut emits);
             }
             let n = if tier == "thorough" { 1500 } else { 300 };
             for i in 0..n {
                 let prog = gen_structured(seed, i);
-                run_program(&prog, &tier, &mut rng, &mut out);
+                run_program(&prog, &tier, &mut rng, &mut out, &mut emits);
             }
             run_null(&mut out);
+            run_strings(&mut emits);
+            run_values(&mut emits);
+            for (i, e) in emits.iter().enumerate() {
+                writeln!(out, "emit\te{i} {e}").unwrap();
+            }
         }
         Some("one") => {
             let (pid, api, script) = (&args[2], &args[3], &args[4]);
@@ -1330,14 +1716,19 @@ fn main() {
                 writeln!(out, "# template {name}: {src:?}").unwrap();
             }
             let env = make_env(&prog, api == "fmt").expect("compile");
-            let clean = run_api(&env, &prog, api, vec![], true);
-            let (refstr, _) = reference(&env, &prog, api);
+            let clean = run_api(&env, &prog, api, vec![], true, false);
+            let (refstr, _, _) = reference(&env, &prog, api);
             writeln!(out, "# plain render: {:?}", refstr).unwrap();
             let refbytes: Vec<u8> = match &refstr {
                 Some(s) => s.as_bytes().to_vec(),
                 None => clean.probe.accepted.clone(),
             };
-            let clean_tag = if clean.res == "ok" { "ok" } else { "err" };
+            let clean_tag = match clean.res.as_str() {
+                "ok" => "ok",
+                "wfnone" => "wfnone",
+                "panic" => "panic",
+                _ => "err",
+            };
             writeln!(
                 out,
                 "prog\t{} {} {} {} {}\tw={} res={}",
@@ -1350,7 +1741,7 @@ fn main() {
                 clean.res
             )
             .unwrap();
-            let o = run_api(&env, &prog, api, parse_script(script).expect("script"), true);
+            let o = run_api(&env, &prog, api, parse_script(script).expect("script"), true, flush_fails(script));
             writeln!(out, "# operations of this run: {}", ops_field(&o.ops)).unwrap();
             for (i, ((off, res), chunk)) in o.probe.calls.iter().zip(o.probe.chunks.iter()).enumerate() {
                 writeln!(out, "# call {i}: offered {off} {:?} -> {res:?}", String::from_utf8_lossy(chunk)).unwrap();
